@@ -16,6 +16,13 @@ CLAIMS = {
     ),
 }
 
+CLAIMS["C15"] = (
+    "polarity abstract interpretation (monotonicity lattice per seed, sign domain, constellation-idiom tags) over every registered soft demodulator and every LLR consumer",
+    "Whole-repository LLR-polarity convention check: the soft branch of every registered demodulator is interpreted abstractly (helpers in context) and its LLR must be decreasing in the distance to the bit-0 points and increasing in the distance to the bit-1 points (closed forms: increasing in the amplitude that carries bit 0); every LLR-mode thresholder path, sign_to_bin/llr_to_bits and every sign-decision site in the soft decoders must be decreasing in the LLR. The domain abstracts the input away, so agreement is decided for all inputs at once. Decides the polarity convention (a necessary condition), not numerical LLR values.",
+    "Trusted: the transfer functions of polarity.py for the torch operations met, the positive-parameter table (noise_var, confidence_scaling, weights, normalisation), idioms frozen in DESIGN.md §1.2 (scalar statistic = constant; masked literal stores; vote count == len). Unknown operations reaching an obligation give exit 2, never a VIOLATION.",
+    "DESIGN.md §2 C15",
+)
+
 NOT_APPLICABLE = {
     "C09": "conjunction at run time of C02/C05/C06/C10/C11/C15 over component pairings and adversarial channels; its structural preconditions (stage order, LLR polarity, label agreement, block framing) are decided under C17, C15, C05, C20 - no additional clause is visible in the shape of the code (DESIGN.md §2 C09)",
 }
